@@ -255,11 +255,8 @@ theorem bitmap_op_changed_counterexample :
   revert h3
   decide
 
-/-- the same witness on the model of the code that exists (`flagFix`); remove after the fix -/
-theorem bitmap_op_changed_counterexample_current :
-    (bAnd [[0#64, 0#64, 4#64], [], []] 0 1 2).2 = false ∧
-    (bAnd [[0#64, 0#64, 4#64], [], []] 0 1 2).1 = [[], [], []] := by
-  decide
+/- (the witness on the pre-fix model `bitmap_op_changed_counterexample_current` was removed when /repo commit
+   fde4fbaa repaired the flag; `bitmap_op_changed_counterexample` above keeps the pre-fix fact) -/
 
 /-- **bitmap_op_changed, partial form for the current header**: exact when `dst` has no non-zero
 word at or beyond the length of the longest source (e.g. `dst` not longer than a source).
@@ -316,12 +313,11 @@ example : (bIor [[1#64], [0#64, 2#64]] 0 0 1).2 = true ∧
   rw [this] at hk
   simp [hget]; omega
 
-/- AFTER THE FIX (flagFix := true), un-comment: the full theorem about the code that exists.
-
+/-- **bitmap_op_changed (full statement)** about the code that exists (after fix fde4fbaa): the flag is
+true exactly when the destination's contents changed, for every operation function, heap and aliasing. -/
 theorem bitmap_op_changed (f : List Word → Word) (h : Heap) (d : Nat) (hd : d < h.length)
     (srcs : List Nat) :
     (opH flagFix f h d srcs).2 = true ↔ Changed h (opH flagFix f h d srcs).1 d :=
   bitmap_op_changed_partial f h d hd srcs (Or.inl rfl)
--/
 
 end MirVerif.C19
